@@ -177,7 +177,7 @@ func runR011(c *core.Ctx) {
 				if f == hex {
 					usesHex = true
 				}
-				if f != nil && f.Name() == "WriteByte" {
+				if f != nil && core.NameOf(f) == "WriteByte" {
 					rawWrites++
 				}
 			}
@@ -213,7 +213,7 @@ func runR011(c *core.Ctx) {
 	var emitted []string
 	ast.Inspect(hd.Body, func(n ast.Node) bool {
 		if call, ok := n.(*ast.CallExpr); ok {
-			if f := core.Callee(inf, call); f != nil && f.Name() == "WriteByte" && len(call.Args) == 1 {
+			if f := core.Callee(inf, call); f != nil && core.NameOf(f) == "WriteByte" && len(call.Args) == 1 {
 				emitted = append(emitted, core.ExprString(call.Args[0]))
 			}
 		}
@@ -477,7 +477,7 @@ func runR013(c *core.Ctx) {
 	rawParam := false
 	ast.Inspect(bq.Body, func(x ast.Node) bool {
 		if call, ok := x.(*ast.CallExpr); ok {
-			if f := core.Callee(inf, call); f != nil && (f.Name() == "WriteString" || f.Name() == "RawString") && len(call.Args) == 1 {
+			if f := core.Callee(inf, call); f != nil && (core.NameOf(f) == "WriteString" || core.NameOf(f) == "RawString") && len(call.Args) == 1 {
 				if sel, ok := core.Unparen(call.Args[0]).(*ast.SelectorExpr); ok && sel.Sel.Name == "param" {
 					rawParam = true
 				}
@@ -697,7 +697,7 @@ func runR017(c *core.Ctx) {
 		okF := false
 		ast.Inspect(fd.Body, func(n ast.Node) bool {
 			if call, ok := n.(*ast.CallExpr); ok && len(call.Args) == 1 {
-				if cf := core.Callee(inf, call); cf != nil && cf.Name() == "WriteFloat64" {
+				if cf := core.Callee(inf, call); cf != nil && core.NameOf(cf) == "WriteFloat64" {
 					if conv, ok := core.Unparen(call.Args[0]).(*ast.CallExpr); ok {
 						if tv, ok := inf.Types[conv.Fun]; ok && tv.IsType() && types.Identical(tv.Type, types.Typ[types.Float64]) {
 							okF = true
@@ -725,7 +725,7 @@ func runR017(c *core.Ctx) {
 				got = cf.Name()
 			case cf != nil && (core.IsFunc(cf, "strconv", "FormatFloat") || core.IsFunc(cf, "strconv", "AppendFloat")):
 				a := call.Args
-				if cf.Name() == "AppendFloat" {
+				if core.NameOf(cf) == "AppendFloat" {
 					a = a[1:]
 				}
 				prec, bits := core.ConstOf(inf, a[2]), core.ConstOf(inf, a[3])
@@ -816,7 +816,7 @@ func runR017(c *core.Ctx) {
 		ast.Inspect(fd.Body, func(n ast.Node) bool {
 			if call, ok2 := n.(*ast.CallExpr); ok2 && len(call.Args) == 1 && (core.Callee(inf, call) == rb || isBytesDecoder(c, core.Callee(inf, call))) {
 				if inner, ok3 := core.Unparen(call.Args[0]).(*ast.CallExpr); ok3 {
-					if cf := core.Callee(inf, inner); cf != nil && cf.Name() == "ReadString" {
+					if cf := core.Callee(inf, inner); cf != nil && core.NameOf(cf) == "ReadString" {
 						ok = true
 					}
 				}
@@ -953,7 +953,7 @@ func runR031(c *core.Ctx) {
 				return true
 			}
 			fv, ok := core.ObjOf(inf, as.Lhs[0]).(*types.Var)
-			if !ok || !fv.IsField() || fv.Name() != "indent" {
+			if !ok || !fv.IsField() || core.NameOf(fv) != "indent" {
 				return true
 			}
 			nIndent++
@@ -1118,7 +1118,7 @@ func runR115(c *core.Ctx) {
 					it := &core.FinInterp{Info: inf}
 					it.Bind = func(e ast.Expr, env core.FinEnv) (interface{}, bool) {
 						if call, ok := e.(*ast.CallExpr); ok {
-							if f := core.Callee(inf, call); f != nil && f.Name() == "IsKeyExcluded" {
+							if f := core.Callee(inf, call); f != nil && core.NameOf(f) == "IsKeyExcluded" {
 								return excl, true
 							}
 						}
@@ -1255,7 +1255,7 @@ func specialFloatFact(inf *types.Info, f core.Fact) string {
 }
 
 func isMaxFloat(inf *types.Info, e ast.Expr) (struct{}, bool) {
-	if o := core.ObjOf(inf, e); o != nil && o.Pkg() != nil && o.Pkg().Path() == "math" && o.Name() == "MaxFloat64" {
+	if o := core.ObjOf(inf, e); o != nil && o.Pkg() != nil && o.Pkg().Path() == "math" && core.NameOf(o) == "MaxFloat64" {
 		return struct{}{}, true
 	}
 	return struct{}{}, false
